@@ -191,7 +191,7 @@ def run(tier):
     vlib.build_lib()
     # 1. model checking of the reference semantics
     if tier == "quick":
-        mc = dict(types=["x", "z"], maxcols=2, maxuid=2, maxnech=1)
+        mc = dict(types=["x", "z"], maxcols=1, maxuid=2, maxnech=1)
     else:
         mc = dict(types=["x", "z", "sel"], maxcols=2, maxuid=3, maxnech=2)
     mcfg = os.path.join(ck.work, "mc.cfg")
